@@ -19,6 +19,22 @@ Part "hist" (SEQ)  BFS to a fixpoint (+ all unmerged sequences to a depth) over 
   not announce must give 404 or the right body - never 5xx, never other code.
   State (canon) = which scripts are in the media cache (probed with has_key), whether the lazily built
   cache object exists, which pre-rendered html is kept.
+Part "family" (SEQ)  the classes of "hist" are all direct subclasses of Component; here the classes are *related by
+  subclassing*.  One small world per family, BFS to a fixpoint (+ all unmerged sequences to a depth) for both caches:
+    pair   r <- x          root r {with, without} js x {with, without} css (4)  x  what x does with the js and with
+                           the css of its base: inherit (not defined) / override (own code) / blank ("")  (3 x 3 = 9)
+    chain  r <- x <- y     r has js+css; quick: x and y each treat js and css alike (3 x 3 = 9 chains, 6 unordered
+    sibs   r <- x, r <- y  sibling sets); thorough: full (js mode, css mode) product per subclass (81 chains, 45 sets)
+  ops: render(class, document|fragment) for every class of the family - so parent-then-child and child-then-parent are
+  both reached -, page(document|fragment) (all classes of the family in one template), clear, evict(class, kind)
+  (three-class families: the js of every class and the css of the root).
+  Reference code of a class = the documented subclassing rule (docs/concepts/fundamentals/subclassing_components.md):
+  the nearest class of the chain that *defines* js / css wins, independent of the library's attribute lookup.
+  Oracle: an announced URL is judged against the code of the class(es) *this step rendered* whose hash it carries
+  (not against "whatever class the hash maps to"): 200 + that class' js / css + content type; a URL announced for a
+  class without such code is a violation; URLs of the family the step did not announce give 404 or the code of every
+  class that carries the hash.  State = (class, kind) entries of the media cache; non-trivial = scripts of at least
+  two related classes cached side by side.
 Part "shapes" (ENUM)  all classes with js, css in {None, "", blank, code, padded code} x
   document/fragment x first/second render: same oracle.
 Part "requests" (ENUM)  full product hash x kind x input-hash x method in two cache states:
@@ -35,7 +51,9 @@ Excluded / agnostic corners
     empty body); GET before anything is cached (404 or the right body);
   * URLs of older renders after a later eviction; evictions *during* a render (cache too small);
     component classes that were garbage collected, share an import path, or whose name is not an
-    identifier; cache backends other than locmem.
+    identifier; cache backends other than locmem;
+  * subclasses that set ``js = None`` / ``css = None`` explicitly (the docs say "defines"; the library treats None as
+    not defined), ``js_file`` / ``css_file`` and ``Media`` inheritance (C04's ground), multiple inheritance.
 """
 from __future__ import annotations
 
@@ -843,11 +861,17 @@ def _requests_task(_):
 # ----------------------------------------------------------------------------- driver
 def _dispatch(task):
     kind, arg = task
-    return {"bfs": _hist_bfs_task, "unmerged": _hist_unmerged_task, "shapes": _shapes_task, "requests": _requests_task}[kind](arg)
+    return {"bfs": _hist_bfs_task, "unmerged": _hist_unmerged_task, "shapes": _shapes_task, "requests": _requests_task,
+            "fam_bfs": _fam_bfs_task, "fam_unmerged": _fam_unmerged_task}[kind](arg)
 
 
 def _hist_identity(cfg, problem):
     return f"hist/{cfg}|{problem.split(': ')[0]}"
+
+
+def _fam_report(fnd, fam_name, cfg, problem, hist):
+    fnd.report(f"family/{cfg}/{fam_name}|{problem.split(': ')[0]}", f"[{cfg} cache, classes {fam_name}] after {hist}: {problem}",
+               {"part": "family", "family": fam_name, "cache": cfg, "history": hist})
 
 
 def run(ctx):
@@ -856,8 +880,10 @@ def run(ctx):
     ev.rule = (
         "SEQ over render / pre-render / slot-insert / clear / evict / recreate histories on the real library (state = media-cache "
         "keys + cache object present + kept html); every URL announced by an output is fetched through django.test.Client; "
-        "non-trivial = states with at least one script in the media cache (hist), renders that announce a URL (shapes), "
-        "requests that address cached code (requests)"
+        "the same over families of classes related by subclassing (parent/child, three-level chain, siblings x inherit/"
+        "override/blank js and css), every announced URL judged against the class that was rendered; "
+        "non-trivial = states with at least one script in the media cache (hist), states with scripts of two related classes "
+        "cached (family), renders that announce a URL (shapes), requests that address cached code (requests)"
     )
     depth = 4 if thorough else 3
     nops = len(hist_ops())
@@ -866,6 +892,12 @@ def run(ctx):
     tasks += [("unmerged", (CACHE_CFGS[0], depth, first)) for first in range(nops)]
     if thorough:  # the configured cache one level shallower (21^4 sequences x 2 would not fit the time budget)
         tasks += [("unmerged", (CACHE_CFGS[1], depth - 1, first)) for first in range(nops)]
+    # families of related classes: one small world per family (three-class families first, they are the larger ones)
+    fams = families(ctx.tier)
+    fam_order = sorted(range(len(fams)), key=lambda i: -len(fams[i].roles))
+    fam_depth = {2: depth - 1, 3: 2}  # classes in the family -> depth of the unmerged cross-check (11 / 13 ops)
+    tasks += [("fam_bfs", (ctx.tier, i, cfg)) for i in fam_order for cfg in CACHE_CFGS]
+    tasks += [("fam_unmerged", (ctx.tier, i, CACHE_CFGS[0], fam_depth[len(fams[i].roles)])) for i in fam_order]
     out = par.run_tasks(_dispatch, tasks)
     # --- history BFS
     seen_by = {}
@@ -906,6 +938,55 @@ def run(ctx):
         ev.add_part(f"hist_unmerged:{cfg}", states=d["seq"], transitions=d["tr"], validated=d["tr"],
                     nontrivial=sum(1 for k in d["canon"] if k[0] or k[1]), observed_distinct=len(d["out"]),
                     bound={"depth": depth if cfg == CACHE_CFGS[0] else depth - 1})
+    # --- families of related classes
+    fam_seen = {}
+    fagg = {cfg: {"states": 0, "tr": 0, "nontriv": 0, "out": set(), "raised": set(), "depth": 0, "open": [], "samples": []}
+            for cfg in CACHE_CFGS}
+    for (kind, _), res in zip(tasks, out):
+        if kind != "fam_bfs":
+            continue
+        cfg, name = res["cfg"], res["family"]
+        fam_seen[(name, cfg)] = res["seen"]
+        d = fagg[cfg]
+        d["states"] += res["states"]
+        d["tr"] += res["transitions"]
+        d["nontriv"] += res["nontrivial"]
+        d["out"] |= set(res["outcomes"])
+        d["raised"] |= {o for o in res["outcomes"] if o.startswith("('raised'")}
+        d["depth"] = max(d["depth"], res["max_depth"])
+        if len(d["samples"]) < 2 and res["samples"]:
+            d["samples"].append({"cache": cfg, "family": name, "history": res["samples"][0]})
+        if not res["fixpoint"] and not res["failures"]:
+            d["open"].append(name)
+        for problem, hist in res["failures"]:
+            _fam_report(fnd, name, cfg, problem, hist)
+    for cfg, d in fagg.items():
+        ev.add_part(
+            f"family_bfs:{cfg}", states=d["states"], transitions=d["tr"], validated=d["tr"], nontrivial=d["nontriv"],
+            observed_distinct=len(d["out"]), expected={"render_raised_outcomes": len(d["raised"])},
+            bound={"fixpoint": not d["open"], "max_depth_reached": d["depth"], "families": len(fams),
+                   "pairs": sum(1 for f in fams if f.kind == "pair"), "chains": sum(1 for f in fams if f.kind == "chain"),
+                   "siblings": sum(1 for f in fams if f.kind == "sibs")},
+            samples=d["samples"],
+        )
+        if d["open"]:
+            ev.caps_hit.append(f"family bfs ({cfg}) did not reach a fixpoint for {d['open'][:3]}")
+    fun = {"seq": 0, "tr": 0, "nontriv": 0, "out": set()}
+    for (kind, _), res in zip(tasks, out):
+        if kind != "fam_unmerged":
+            continue
+        name, cfg, n_seq, n_tr, failures, canon_states, outcomes = res
+        fun["seq"] += n_seq
+        fun["tr"] += n_tr
+        fun["nontriv"] += sum(1 for k in canon_states if _related_cached(k))
+        fun["out"] |= set(outcomes)
+        for problem, hist in failures:
+            _fam_report(fnd, name, cfg, problem, hist)
+        extra = canon_states - fam_seen[(name, cfg)]
+        if extra and not fnd.violations and not fnd.known_hits:
+            raise par.HarnessError(f"canonicalisation unsound ({name}, {cfg}): unmerged search reached {len(extra)} states the BFS did not")
+    ev.add_part(f"family_unmerged:{CACHE_CFGS[0]}", states=fun["seq"], transitions=fun["tr"], validated=fun["tr"],
+                nontrivial=fun["nontriv"], observed_distinct=len(fun["out"]), bound={"depth_by_family_size": fam_depth})
     # --- shapes and requests
     for (kind, _), res in zip(tasks, out):
         if kind == "shapes":
@@ -934,6 +1015,18 @@ def replay(ctx, case):
         ok = True
         for op in case["history"]:
             obs, problem = hist_step(w, tuple(op))
+            print(op, obs, problem)
+            if problem:
+                ok = False
+                break
+        _cleanup()
+        return ok
+    if part == "family":
+        _VALIDATED.clear()
+        w = FamWorld(family_by_name(case["family"]), case["cache"])
+        ok = True
+        for op in case["history"]:
+            obs, problem = fam_step(w, tuple(op))
             print(op, obs, problem)
             if problem:
                 ok = False
